@@ -68,6 +68,13 @@ func verifCanary(label string, cond bool) {}
 //@   ensures err == nil ==> result0 != nil && fresh(result0) && remoteKeyOf(result0) == remoteKey
 //@   ensures err != nil ==> result0 == nil
 
+//@ func Symmetric
+//@   props C17 C14
+//@   assumed
+//@   assigns nothing
+//@   ensures err == nil ==> result0 != nil && fresh(result0)
+//@   ensures err != nil ==> result0 == nil
+
 //@ func (*EncryptionAlgorithm).Decrypt
 //@   props C09
 //@   assumed
